@@ -169,7 +169,7 @@ theorem tie_readBlockConds : readBlockConds =
   ["if err != nil",
    "if err == nil && n != stat.Size()"] := rfl
 
-/-- WriteBlock: ReadOnly → MethodDisabledError, IsFull → FullError, then only I/O error exits (Model.C01.volWrite) -/
+/-- WriteBlock: ReadOnly → MethodDisabledError, IsFull → FullError, then only I/O error exits — MkdirAll, TempFile, copy, close, Chtimes, flock of the file being replaced (`if err == nil` = such a file exists), rename (Model.C01.volWrite) -/
 theorem tie_writeBlockConds : writeBlockConds =
   ["if v.volume.ReadOnly",
    "if v.IsFull()",
@@ -179,9 +179,12 @@ theorem tie_writeBlockConds : writeBlockConds =
    "if err != nil",
    "if err != nil",
    "if err != nil",
+   "if err == nil",
+   "if err != nil",
    "if err != nil"] := rfl
 
-/-- WriteBlock returns -/
+/-- WriteBlock returns (since fix 7e105eb the flock of an existing file at the block path is taken
+before the rename; a lock failure is one more I/O-error exit that leaves the block path unchanged) -/
 theorem tie_writeBlockReturns : writeBlockReturns =
   ["MethodDisabledError",
    "FullError",
@@ -191,6 +194,7 @@ theorem tie_writeBlockReturns : writeBlockReturns =
    "err",
    "err",
    "err",
+   "fmt.Errorf(\"error locking %s: %s\", bpath, err)",
    "err",
    "nil"] := rfl
 
